@@ -522,7 +522,7 @@ func c17Schedules(rep *report.Report, bound int, thorough bool) {
 		snapInTx    bool // a read transaction that, after other threads had a chance to commit, snapshots what IT sees
 		twoRestores bool // a second restore (of a snapshot of the current state B) overlapping the first; no writer
 	}
-	variants := []variant{{"restore||reader||writer", false, false, false, false}, {"restore||reader||writer||Snapshot()", true, false, false, false}, {"restore||reader||writer||RootBucket-in-Update", false, true, false, false},
+	variants := []variant{{"restore||reader||writer", false, false, false, false}, {"restore||reader||writer||Snapshot()", true, false, false, false}, {"restore||reader||writer||RootBucket+GetDefaultSnapshotPath-in-tx", false, true, false, false},
 		{"restore||reader||writer||View{SnapshotInTx}", false, false, true, false},
 		{"restore(A)||restore(B)||reader", false, false, false, true}}
 	for _, v := range variants {
@@ -617,6 +617,11 @@ func c17Schedules(rep *report.Report, bound int, thorough bool) {
 							cur.begin[2] = w.readTuple(tx, noYield)
 							vsync.Yield("rootuser:in-tx")
 							_, err := db.RootBucket(tx)
+							// ... and the other helper a transaction function may call on the database handle (a migration asks
+							// for the default snapshot path from inside its transaction)
+							if p := db.GetDefaultSnapshotPath(); p == "" && err == nil {
+								err = errors.New("GetDefaultSnapshotPath returned nothing")
+							}
 							return err
 						}); err != nil {
 							cur.errs = append(cur.errs, "root-bucket user: "+err.Error())
